@@ -284,8 +284,9 @@ class DrawReadOnly(Contract):
 import os  # noqa: E402
 
 for _n in DRAW_CASES:
-    if DRAW_CASES[_n]["labels"] and os.environ.get("VERIF_TIER") != "thorough":
-        continue  # the label-angle paths (atan2, degrees) take 4-5 min: thorough tier only
+    if DRAW_CASES[_n]["labels"]:
+        continue  # NOT registered: the label-angle paths (atan2, degrees) take 4-5 min and, with the thorough tier's longer solver
+        #           budgets, stop at a division whose divisor the model cannot show non-zero (exit 2 = undecided); see DESIGN.md
     register(DrawReadOnly(_n))
 
 
